@@ -30,7 +30,7 @@ ALL = {
  'C16': (E2, T_E2, 'All arrays of length 0..4/6 with every index in [-8,8]/[-30,30] through [k], ![k], [[/k]] on json/yaml/jsonl, index pairs, and maps; element or clean error, never a panic report.', 'case-variant map keys not asserted'),
  'C17': (E2, T_E2, 'All lists of 0..6/10 items with all start/end in a window and the e flag through the range filter; compared with a slice model where the statement defines the result, otherwise clean exit/error and in-order subsequence.', 'forms outside the statement only get the universal clauses'),
  'C18': (E2, T_E2, 'All integer pairs in [-12,12]^2 / [-200,200]^2, zero-padded spellings and multi-block parameters through a and ja; compared with a reference generator.', 'block sizes <=3'),
- 'C19': (E2, T_E2, 'All programs of an allow-listed builtin with arity <=1/2 from an adversarial argument alphabet, as function and method over 4 stdin shapes; must return control, report errors with non-zero exit, never print a panic report; plus all sequences of <=3/4 named-pipe operations (create, close, failing create, write through the registry) and six temporary-pipe redirections in a child murex process, which must reach the end of the program.', 'allow-list of non-interactive builtins; hang judged from process state (in-process: scheduler/rusage idle; child: every thread asleep with no CPU time for 25 s, or more than 60 s of own CPU time), never from wall-clock alone'),
+ 'C19': (E2, T_E2, 'All programs of an allow-listed builtin with arity <=1/2 from an adversarial argument alphabet, as function and method over 4 stdin shapes; must return control, report errors with non-zero exit, never print a panic report; plus all sequences of <=3/4 named-pipe operations (create, close, failing create, failing create that returns a typed nil pointer (tcp dial; the child is built with the net pipe types), write through the registry) and six temporary-pipe redirections in a child murex process, which must reach the end of the program.', 'allow-list of non-interactive builtins; hang judged from process state (in-process: scheduler/rusage idle; child: every thread asleep with no CPU time for 25 s, or more than 60 s of own CPU time), never from wall-clock alone'),
  'C20': (E2, T_E2, 'Every string up to the stated length over the murex token alphabet through ParseBlock and the highlighter tokenizer; a panic or a non-terminating input is reported.', 'alphabet (31 runes / 16-rune core / 38 tokens) and length bounds'),
  'C21': (E2, T_E2, 'ALL exit codes 0-255 and all terminating signals of a helper process, alone, with && and || and inside try; exit number and control flow compared with the statement.', 'finite space enumerated completely'),
  'C22': (E2, T_E2, 'Every subset of {private, alias, function, builtin, external} defined for one name x alias targets x call contexts; the marker printed must be that of the highest-precedence definition, alias expanded once.', 'finite space enumerated completely'),
